@@ -42,7 +42,7 @@ def rule_local_histogram(ctx, f, rid):
             zf = lambda t_: is_zero_skip_filter(f, t_)   # noqa: E731
             ei = elem_of(bk[0]["idx"], filter_ok=zf)
             ev = elem_of(peel(bk[0]["call"].args[1]), filter_ok=zf)
-            ok = bool(ei) and bool(ev) and ei[0] == ev[0] == SELF_FIELD("counts") and ei[2] == ["0"] and ev[2] == ["1"]
+            ok = (bool(ei) and bool(ev) and ei[0] == ev[0] == SELF_FIELD("counts") and ei[2] == ["0"] and ev[2] == ["1"]) or hcc.lockstep_counts_delta(b, bk[0])
         ctx.ob(rid, "LocalHistogramCore::flush|buckets", ok, "bucket i of the shared histogram must receive counts[i]", site=b.raw["span"]["at"])
         cl = b.calls_to("LocalHistogramCore::clear")
         ok = len(cl) == 1 and peel(cl[0].args[0]) == P(1) and b.all_paths_pass(e1["bb"], [cl[0].bb]) and cl[0].bb in b.strictly_after(el["bb"])
